@@ -65,6 +65,10 @@ type expPowRec struct {
 	ADen int64   `json:"aden,omitempty"`
 	Root []int64 `json:"root,omitempty"`
 	Ok   bool    `json:"ok"`
+	// powpsd, singular class: Either = the specification cannot promise the error (planted spectrum
+	// with a zero that the eigensolver only reproduces up to a rounding residue); ZeroEigs = multiplicity
+	Either   bool `json:"either"`
+	ZeroEigs int  `json:"zeroEigs,omitempty"`
 }
 
 func init() {
@@ -270,7 +274,7 @@ func (k *checker) powCase(p *expPowRec) int {
 	return ncalls
 }
 
-func (k *checker) powPSDCase(p *expPowRec, st *expStats) int {
+func (k *checker) powPSDCase(p *expPowRec, st *expStats, sum *core.Summary) int {
 	var pows []psdEntry
 	if err := json.Unmarshal(p.Pows, &pows); err != nil {
 		k.failf("matfactor:SymDense.PowPSD:harness", "%v", err)
@@ -305,9 +309,33 @@ func (k *checker) powPSDCase(p *expPowRec, st *expStats) int {
 			if !k.call(sig, func() { err = recv.PowPSD(arg, pw) }) {
 				continue
 			}
+			if !v.self {
+				// the argument is an input: whatever the answer, it still holds the specification's matrix
+			same:
+				for i := 0; i < n; i++ {
+					for j := 0; j < n; j++ {
+						if S.At(i, j) != D.At(i, j) {
+							k.failf(sig+":input-modified", "the argument's element (%d,%d) is %v after the call, it was %v", i, j, S.At(i, j), D.At(i, j))
+							S.SetSym(i, j, D.At(i, j))
+							break same
+						}
+					}
+				}
+			}
 			if !p.Ok {
-				if err == nil {
-					k.failf(sig+":no-error", "PowPSD of a matrix with the planted spectrum %v returned no error", p.Root)
+				what := fmt.Sprintf("the planted spectrum %v", p.Root)
+				if p.ZeroEigs > 0 {
+					what = fmt.Sprintf("an exactly singular positive semi-definite matrix (eigenvalue 0 of multiplicity %d, kind %q)", p.ZeroEigs, p.Kind)
+				}
+				switch {
+				case p.Either && err == nil:
+					sum.Count("powpsd_singular_planted_no_error(accepted)", 1)
+				case p.Either:
+					sum.Count("powpsd_singular_planted_error(accepted)", 1)
+				case err == nil:
+					k.failf(sig+":no-error", "PowPSD of a matrix with %s returned no error (result finite: %v)", what, allFinite(recv))
+				case p.ZeroEigs > 0:
+					sum.Count("powpsd_singular_exact_error", 1)
 				}
 				continue
 			}
@@ -322,6 +350,18 @@ func (k *checker) powPSDCase(p *expPowRec, st *expStats) int {
 		}
 	}
 	return ncalls
+}
+
+func allFinite(s *mat.SymDense) bool {
+	n := s.SymmetricDim()
+	for i := 0; i < n; i++ {
+		for j := i; j < n; j++ {
+			if !finite(s.At(i, j)) {
+				return false
+			}
+		}
+	}
+	return true
 }
 
 func replayExpPow(in *core.Lines, args []string, seed int64, sum *core.Summary) error {
@@ -352,7 +392,7 @@ func replayExpPow(in *core.Lines, args []string, seed int64, sum *core.Summary) 
 		case "pow":
 			calls = k.powCase(p)
 		case "powpsd":
-			calls = k.powPSDCase(p, &pst)
+			calls = k.powPSDCase(p, &pst, sum)
 		default:
 			continue
 		}
